@@ -335,6 +335,11 @@ class VProbeEvent(EventABC):
 
     def hooked_after_step_for_market(self, simulator, market):
         self._r("market_after", market=market.market_id)
+        tr = T()
+        if tr.options.get("probe_series"):
+            # the values of the current time are final once the step is over: remember them (inclusive snapshot)
+            t = market.get_time()
+            tr.prev_series[market.market_id] = {g: getattr(market, g)(range(t + 1)) for g in GETN}
 
 
 def probe_series(tr: Trace, market) -> None:
